@@ -41,6 +41,7 @@ func checkC17(c *Ctx) {
 	// NewKeyEnvelope / Unwrap or any Marshal*/Unmarshal* method (a cache keyed by part of the arguments would make a
 	// later call return an earlier call's result)
 	c17Stateless(c)
+	c17ForeignText(c)
 }
 
 func c17Stateless(c *Ctx) {
@@ -330,6 +331,19 @@ func c17Pairs(c *Ctx) {
 						c.Run.Bad(rule, key+"/repr", ipos(c, s.Instr), "the float64 is handed to encoding/json or to FormatFloat with precision -1, bit size 64 (enough digits for every integer value)", fmt.Sprintf("%s with precision %d, bit size %d: a fixed number of digits cannot represent every value (e.g. 4294.967295 MHz needs 10 significant digits)", s.Callee, prec, bits))
 						how = "-"
 					}
+				}
+			}
+			// every successful return must hand out bytes produced by that formatting call: a second, hand-written
+			// formatting path is outside the supported subset (undecided, not accepted)
+			for i, r := range flow.Returns(fn) {
+				if !mayReturnNil(e, r, errIndex(fn)) {
+					continue
+				}
+				t := e.Select(r.Results[0], nil, r)
+				if !t.Has(func(x *flow.Term) bool {
+					return x.Op == "call" && (x.Val == "encoding/json.Marshal" || x.Val == "strconv.FormatFloat" || x.Val == "strconv.AppendFloat")
+				}) {
+					c.Run.Unknown(rule, fmt.Sprintf("%s/repr-path#%d", key, i+1), ipos(c, r), "every successful return formats the value through encoding/json.Marshal or strconv.FormatFloat", short(t.String()))
 				}
 			}
 			var fvT *flow.Term
@@ -697,5 +711,106 @@ func c17Envelope(c *Ctx) {
 			}
 		}
 		errSwallowRule(c, rule, fn)
+	}
+}
+
+// c17ForeignText (R6): payload structs of package backend carry values of root-package types whose JSON form is their
+// text codec (EUI64, DevAddr, NetID, AES128Key, DLSettings …). For every such type that occurs in a payload field the
+// text pair must be an inverse pair: the four identifier types follow the identifier codec rule (hex, optional 0x,
+// exact length), every other type delegates both ways to its binary codec through encoding/hex without touching the
+// text (no trimming of characters that the encoder can produce).
+func c17ForeignText(c *Ctx) {
+	const rule = "R6.foreign-text"
+	r := c.Run
+	r.Rule(rule, "text codecs of root-package types used in backend payload fields: identifiers = hex with optional 0x and exact length; other types: MarshalText = hex(MarshalBinary(v)), UnmarshalText = UnmarshalBinary(hex.DecodeString(string(text))) only when the hex decoding succeeded")
+	pk := c.Prog.Pkg("backend")
+	if pk == nil {
+		r.Unknown(rule, "backend", "", "package loaded", "missing")
+		return
+	}
+	found := map[string]*types.Named{}
+	var visit func(t types.Type, depth int)
+	seen := map[types.Type]bool{}
+	visit = func(t types.Type, depth int) {
+		if depth > 6 || seen[t] {
+			return
+		}
+		seen[t] = true
+		switch u := t.(type) {
+		case *types.Pointer:
+			visit(u.Elem(), depth+1)
+		case *types.Slice:
+			visit(u.Elem(), depth+1)
+		case *types.Array:
+			visit(u.Elem(), depth+1)
+		case *types.Map:
+			visit(u.Elem(), depth+1)
+		case *types.Named:
+			if u.Obj().Pkg() != nil && u.Obj().Pkg().Path() == "github.com/brocaar/lorawan" {
+				if c17HasMethod(u, "MarshalText") || c17HasMethod(types.NewPointer(u), "UnmarshalText") {
+					found[u.Obj().Name()] = u
+					return
+				}
+			}
+			if st, ok := u.Underlying().(*types.Struct); ok {
+				for i := 0; i < st.NumFields(); i++ {
+					visit(st.Field(i).Type(), depth+1)
+				}
+			}
+		case *types.Struct:
+			for i := 0; i < u.NumFields(); i++ {
+				visit(u.Field(i).Type(), depth+1)
+			}
+		}
+	}
+	scope := pk.Types.Scope()
+	for _, n := range scope.Names() {
+		if tn, ok := scope.Lookup(n).(*types.TypeName); ok {
+			visit(tn.Type(), 0)
+		}
+	}
+	names := make([]string, 0, len(found))
+	for n := range found {
+		names = append(names, n)
+	}
+	sort.Strings(names)
+	ids := map[string]int64{"EUI64": 8, "DevAddr": 4, "NetID": 3, "AES128Key": 16}
+	for _, n := range names {
+		r.Saw("root-package types with a text form used in backend payloads", n)
+		if k, ok := ids[n]; ok {
+			codecRules(c, rule, n, k)
+			continue
+		}
+		lt := "lorawan." + n
+		if fn := flowFn(c, rule, "", n+".MarshalText"); fn != nil {
+			e := flow.For(fn)
+			bin := flow.Call("("+lt+").MarshalBinary", flow.Param(0))
+			want := flow.Conv("[]byte", flow.Call("encoding/hex.EncodeToString", flow.Extract(bin, 0)))
+			k := 0
+			for _, ret := range flow.Returns(fn) {
+				if !mayReturnNil(e, ret, errIndex(fn)) {
+					continue
+				}
+				k++
+				checkTerm(c, rule, fmt.Sprintf("%s/success#%d", fnKey(fn), k), ipos(c, ret), "text form", e.Select(ret.Results[0], nil, ret), want)
+			}
+		}
+		if fn := flowFn(c, rule, "", n+".UnmarshalText"); fn != nil {
+			e := flow.For(fn)
+			dec := flow.Call("encoding/hex.DecodeString", flow.Conv("string", flow.Param(1)))
+			sites := flow.Calls(fn, flow.Named("(*"+lt+").UnmarshalBinary"))
+			r.Check(len(sites) == 1, rule, fnKey(fn)+"/decode-sites", fpos(c, fn), "exactly one call of UnmarshalBinary", fmt.Sprintf("%d calls", len(sites)), true)
+			for i, s := range sites {
+				key := fmt.Sprintf("%s/decode#%d", fnKey(fn), i+1)
+				if len(s.Args) == 2 {
+					checkTerm(c, rule, key+"/input", ipos(c, s.Instr), "decoded bytes", s.Args[1], flow.Extract(dec, 0))
+				}
+				pc := e.PathCond(s.Instr.Block(), nil)
+				r.Check(flow.Implies(pc, flow.Eq(flow.Extract(dec, 1), flow.Nil())), rule, key+"/guard", ipos(c, s.Instr), "reached only when the hex decoding returned no error", pc.String(), true)
+			}
+		}
+	}
+	if len(names) == 0 {
+		r.Unknown(rule, "backend", "", "payload fields of root-package types with a text form", "none found")
 	}
 }
